@@ -22,16 +22,27 @@ void h_match_number(void)
     size_t po, mo;
     __CPROVER_assume(po < G_PN && mo < G_MN);
     const char *p = G_PB + po, *m = G_MB + mo;
-    rtosc_match_number(&p, &m);
+    bool r = rtosc_match_number(&p, &m);
+    V_COVER(r);
+    V_COVER(!r);
 }
 
+/* bounded: both strings are objects of exactly C05_OPT_N bytes, every byte but the final NUL arbitrary
+ * (an earlier NUL gives every shorter string); all loops unwound, unwinding assertions on. */
+#ifndef C05_OPT_N
+#define C05_OPT_N 8
+#endif
 void h_match_options(void)
 {
-    strings();
+    char *pb = malloc(C05_OPT_N), *mb = malloc(C05_OPT_N);
+    __CPROVER_assume(pb[C05_OPT_N - 1] == 0 && mb[C05_OPT_N - 1] == 0);
+    G_PB = pb; G_PN = C05_OPT_N; G_MB = mb; G_MN = C05_OPT_N;
     size_t po, mo;
     __CPROVER_assume(po < G_PN && mo < G_MN);
     const char *m = G_MB + mo;
-    rtosc_match_options(G_PB + po, &m);
+    const char *r = rtosc_match_options(G_PB + po, &m);
+    V_COVER(r != NULL);
+    V_COVER(r == NULL);
 }
 
 void h_match_path(void)
@@ -41,5 +52,7 @@ void h_match_path(void)
     __CPROVER_assume(po < G_PN && mo < G_MN);
     const char *end;
     _Bool want_end;
-    rtosc_match_path(G_PB + po, G_MB + mo, want_end ? &end : NULL);
+    const char *r = rtosc_match_path(G_PB + po, G_MB + mo, want_end ? &end : NULL);
+    V_COVER(r != NULL && want_end);
+    V_COVER(r == NULL);
 }
